@@ -129,6 +129,10 @@ def _recipe(name):
             (("t", "u"), (3, 3), G),
             (("u", "s", "b"), (3, 3, 2), G),
         ], None
+    if name == "outbond-pair":  # an OUTPUT label on exactly the two tensors of a pair that has a size-reducing re-split
+        return [(("a", "o", "x"), (3, 2, 2), G), (("x", "o", "b"), (2, 2, 3), G)], ("a", "o", "b")
+    if name == "factor-ring":  # factor graph: every variable on two factors, two of them kept open (a marginal)
+        return [(("v0", "v1"), (2, 2), "positive"), (("v1", "v2"), (2, 2), "positive"), (("v2", "v3"), (2, 2), "positive"), (("v3", "v0"), (2, 2), "positive")], ("v0", "v2")
     if name == "outer-structured":  # structured tensors whose structured axis is an OUTER label
         return [
             (("a", "x"), (2, 2), "antidiag"),
@@ -148,7 +152,7 @@ def _recipe(name):
 RECIPE_NAMES = (
     "chain3", "tri", "chain-diag", "chain-antidiag", "chain-column", "chain-rank1", "chain-identity", "loop-diag", "copy",
     "hyper3", "hyper3-out", "hyper4", "hyper-diag", "outbond", "outbond-diag", "multibond", "multibond-loop", "oversized",
-    "scalar", "size1", "closed", "two-comp", "hint", "ring4-lowrank", "two-loops", "mps4", "multibond-diag", "mixed-dtype", "outer-structured",
+    "scalar", "size1", "closed", "two-comp", "hint", "ring4-lowrank", "two-loops", "mps4", "multibond-diag", "mixed-dtype", "outer-structured", "outbond-pair", "factor-ring",
 )
 
 
@@ -352,7 +356,7 @@ def iso_defect(t, left):
 #                                    menu                                     #
 # --------------------------------------------------------------------------- #
 
-FULL_SEQS = ("ADCRS", "R", "DCR", "ADCRSLP", "RPL", "SLP", "AD", "CSR")
+FULL_SEQS = ("A", "D", "C", "R", "S", "L", "P", "ADCRS", "DCR", "ADCRSLP", "RPL", "SLP", "AD", "CSR", "ADCRP")
 
 
 def menu(w, rich=1):
@@ -560,6 +564,12 @@ def menu(w, rich=1):
         add("full_simplify", plain=True, **O)
         for s in FULL_SEQS:
             add("full_simplify", dev=1, seq=s, **O)
+            if f.std and (len(s) == 1 or s in ("ADCRS", "RPL", "ADCRSLP")):
+                # every pass letter and the documented sequences also WITH explicit outputs
+                add("full_simplify", dev=1, seq=s, output_inds="out")
+        if f.std:
+            add("full_simplify", dev=1, output_inds="out")
+            add("compress_simplify", dev=1, atol=1e-12, output_inds="out")
         add("full_simplify", dev=1, equalize_norms=True, **O)
         add("full_simplify", dev=1, equalize_norms=1.0, **O)
         add("full_simplify", dev=1, seq="ADCRSLP", equalize_norms=1.0, **O)
